@@ -11,8 +11,8 @@ import C07 as G
 PID = "C18"
 CLUSTER = "Sorter"
 PROPS = "props/C18.v"
-N_QUICK = 200
-N_THOROUGH = 4000
+N_QUICK = 600
+N_THOROUGH = 8000
 LEVEL_TEXT = ("partial: Coq theorems about a model of the sorter's I/O protocol (files, descriptors, handles; every I/O call a "
               "step that may fail once) for all workloads and all fault positions, tied to /repo by running the real "
               "library with the same nine I/O entry points wrapped from outside and a fault injected at every call index "
